@@ -12,13 +12,14 @@ use std::process::{Child, ChildStdin, Command, Stdio};
 use std::sync::mpsc::{channel, Receiver};
 use std::time::Duration;
 
-const BIN_TARGET: &str = "/verif/target/chessbin";
 
 fn build_binary() -> Result<String, String> {
+    let bin_target = format!("{}/target/chessbin", crate::report::verif_dir());
+    let bin_target = bin_target.as_str();
     let st = Command::new("cargo")
         .args(["build", "--release", "--offline", "--bin", "chess"])
         .current_dir("/repo")
-        .env("CARGO_TARGET_DIR", BIN_TARGET)
+        .env("CARGO_TARGET_DIR", bin_target)
         .env("CARGO_PROFILE_RELEASE_LTO", "false")
         .env("CARGO_PROFILE_RELEASE_CODEGEN_UNITS", "16")
         .env("CARGO_PROFILE_RELEASE_DEBUG", "false")
@@ -30,7 +31,7 @@ fn build_binary() -> Result<String, String> {
     if !st.status.success() {
         return Err(format!("building the chess binary failed: {}", String::from_utf8_lossy(&st.stderr).lines().rev().take(15).collect::<Vec<_>>().join(" | ")));
     }
-    Ok(format!("{}/release/chess", BIN_TARGET))
+    Ok(format!("{}/release/chess", bin_target))
 }
 
 struct Pvp {
